@@ -31,11 +31,22 @@ def replay(chk, path):
     import json
     rep = json.load(open(path))
     if "script" in rep and "pool" in rep:          # a pooled_inner_scenarios case: re-run it on the current tree
-        bad = _pooled_check(rep["operator"], rep["pool"], rep["script"])
+        bad = _pooled_check(rep["operator"], rep["pool"], rep["script"], bool(rep.get("with_scheduler")))
         if bad:
             print(json.dumps({"operator": rep["operator"], "pool": rep["pool"], "script": rep["script"],
                               "mismatch": bad[0], "what": bad[1], "got": bad[2], "expected": bad[3]},
                              indent=1, default=repr))
+            print(f"VIOLATION property=C12 replay={path}")
+            return 1
+        print(f"[C12] replay {path}: implementation agrees with the reference semantics on this case")
+        return 0
+    if rep.get("family") == "reentrant_scenarios":
+        spec = [tuple(x) for x in rep["inners (has initial value, arrives re-entrantly)"]]
+        bad, arrived, out, exp = _reentrant_case(rep["operator"], spec)
+        print(json.dumps({"operator": rep["operator"], "inners (has initial value, arrives re-entrantly)": spec,
+                          "arrival order": arrived, "forwarded": out, "expected": exp, "what": bad}, indent=1,
+                         default=repr))
+        if bad:
             print(f"VIOLATION property=C12 replay={path}")
             return 1
         print(f"[C12] replay {path}: implementation agrees with the reference semantics on this case")
@@ -45,10 +56,90 @@ def replay(chk, path):
 
 
 # ---- oracle-only scenarios: inners that emit inside subscribe() and re-entrant arrival of the next inner ----
-def reentrant_scenarios(chk):
-    import reactivex as rx
+def _reentrant_case(which, spec):
+    """spec[i] = (inner i has an initial value?, it arrives re-entrantly when the previous inner's initial value is
+    seen?) -> (what failed or None, arrival order, forwarded, expected)"""
     from reactivex import operators as ops
     from reactivex.subject import Subject, BehaviorSubject
+    k = len(spec)
+    inners = []
+    for i, (init, _) in enumerate(spec):
+        inners.append(BehaviorSubject(("init", i)) if init else Subject())
+    outer = Subject()
+    out, term = [], []
+    arrived = []
+    idx_seen = []              # index argument handed to switch_map_indexed's projection, call by call
+
+    def indexed_pick(i, idx):
+        idx_seen.append(idx)
+        return inners[i]
+
+    def arrive(i):
+        arrived.append(i)
+        if which == "switch_latest":
+            outer.on_next(inners[i])
+        else:
+            outer.on_next(i)
+
+    def on_next(v):
+        out.append(v)
+        if isinstance(v, tuple) and v[0] == "init":
+            j = v[1] + 1
+            if j < k and spec[j][1] and j not in arrived:
+                arrive(j)          # re-entrant: from inside the delivery of inner j-1's first element
+    if which == "switch_latest":
+        o = outer.pipe(ops.switch_latest())
+    elif which == "switch_map":
+        o = outer.pipe(ops.switch_map(lambda i: inners[i]))
+    elif which == "switch_map_indexed":
+        o = outer.pipe(ops.switch_map_indexed(indexed_pick))
+    else:
+        o = outer.pipe(ops.flat_map_latest(lambda i: inners[i]))
+    o.subscribe(on_next, lambda e: term.append("E"), lambda: term.append("C"))
+    for i in range(k):
+        if i not in arrived:
+            arrive(i)
+    latest = arrived[-1]
+    # only the latest inner may still be subscribed
+    stale = [i for i in range(k) if i != latest and inners[i].observers]
+    for i in range(k):
+        inners[i].on_next(("late", i))
+    outer.on_completed()
+    done_before = list(term)
+    inners[latest].on_completed()
+    # reference: every inner is the latest at the moment it is subscribed, so its initial value (if any)
+    # is forwarded, in arrival order; afterwards only the final latest is listened to
+    exp = []
+    order = []
+
+    def sim(i):
+        order.append(i)
+        if spec[i][0]:
+            exp.append(("init", i))
+            j = i + 1
+            if j < k and spec[j][1] and j not in order:
+                sim(j)
+    for i in range(k):
+        if i not in order:
+            sim(i)
+    exp.append(("late", order[-1]))
+    bad = None
+    if order != arrived:
+        bad = f"harness bug: arrival order {arrived} vs reference {order}"
+    elif which == "switch_map_indexed" and repr(idx_seen) != repr(list(range(k))):
+        bad = f"index arguments {idx_seen}, expected {list(range(k))}"
+    elif stale:
+        bad = f"previous inner(s) {stale} still subscribed after inner {latest} arrived"
+    elif out != exp:
+        bad = f"forwarded {out}, expected {exp}"
+    elif done_before:
+        bad = "completed before the latest inner completed"
+    elif term != ["C"]:
+        bad = f"terminal {term}, expected completion once outer and latest inner completed"
+    return bad, arrived, out, exp
+
+
+def reentrant_scenarios(chk):
     n = 80 if chk.tier == "quick" else 1000
     hist = {}
     nontrivial = set()
@@ -57,81 +148,14 @@ def reentrant_scenarios(chk):
         k = chk.rng.choice([2, 3, 4])
         # inner i: (has initial value?, arrives re-entrantly when the previous inner's initial value is seen?)
         spec = [(chk.rng.random() < 0.6, i > 0 and chk.rng.random() < 0.6) for i in range(k)]
-        inners = []
-        for i, (init, _) in enumerate(spec):
-            inners.append(BehaviorSubject(("init", i)) if init else Subject())
-        outer = Subject()
-        out, term = [], []
-        arrived = []
-
-        def arrive(i):
-            arrived.append(i)
-            if which == "switch_latest":
-                outer.on_next(inners[i])
-            else:
-                outer.on_next(i)
-
-        def on_next(v):
-            out.append(v)
-            if isinstance(v, tuple) and v[0] == "init":
-                j = v[1] + 1
-                if j < k and spec[j][1] and j not in arrived:
-                    arrive(j)          # re-entrant: from inside the delivery of inner j-1's first element
-        if which == "switch_latest":
-            o = outer.pipe(ops.switch_latest())
-        elif which == "switch_map":
-            o = outer.pipe(ops.switch_map(lambda i: inners[i]))
-        elif which == "switch_map_indexed":
-            o = outer.pipe(ops.switch_map_indexed(lambda i, _: inners[i]))
-        else:
-            o = outer.pipe(ops.flat_map_latest(lambda i: inners[i]))
-        o.subscribe(on_next, lambda e: term.append("E"), lambda: term.append("C"))
-        for i in range(k):
-            if i not in arrived:
-                arrive(i)
-        latest = arrived[-1]
-        # only the latest inner may still be subscribed
-        stale = [i for i in range(k) if i != latest and inners[i].observers]
-        for i in range(k):
-            inners[i].on_next(("late", i))
-        outer.on_completed()
-        done_before = list(term)
-        inners[latest].on_completed()
+        bad, arrived, out, exp = _reentrant_case(which, spec)
         chk.cov["evaluations"] += 1
         key = f"{which}/k={k}/reentrant={sum(1 for _, r in spec if r)}"
         hist[key] = hist.get(key, 0) + 1
-        # reference: every inner is the latest at the moment it is subscribed, so its initial value (if any)
-        # is forwarded, in arrival order; afterwards only the final latest is listened to
-        exp = []
-        def ref_arrive(i, acc):
-            acc.append(i)
-        order = []
-        pending = list(range(k))
-        def sim(i):
-            order.append(i)
-            if spec[i][0]:
-                exp.append(("init", i))
-                j = i + 1
-                if j < k and spec[j][1] and j not in order:
-                    sim(j)
-        for i in range(k):
-            if i not in order:
-                sim(i)
-        exp.append(("late", order[-1]))
-        bad = None
-        if order != arrived:
-            bad = f"harness bug: arrival order {arrived} vs reference {order}"
-        elif stale:
-            bad = f"previous inner(s) {stale} still subscribed after inner {latest} arrived"
-        elif out != exp:
-            bad = f"forwarded {out}, expected {exp}"
-        elif done_before:
-            bad = "completed before the latest inner completed"
-        elif term != ["C"]:
-            bad = f"terminal {term}, expected completion once outer and latest inner completed"
         if bad:
-            chk.violation(f"C12|reentrant|{which}|{bad[:40]}",
-                          {"operator": which, "inners (has initial value, arrives re-entrantly)": spec,
+            chk.violation(f"C12|reentrant|{which}|{'index arguments' if bad.startswith('index arguments') else bad[:40]}",
+                          {"family": "reentrant_scenarios", "operator": which,
+                           "inners (has initial value, arrives re-entrantly)": spec,
                            "arrival order": arrived, "forwarded": out, "expected": exp, "what": bad},
                           size=k + sum(1 for _, r in spec if r))
         elif any(r for _, r in spec):
@@ -147,10 +171,20 @@ def reentrant_scenarios(chk):
 #         a later subscription starts afresh)
 #   hot:  a Subject (logging its subscribe / unsubscribe); its termination is remembered (subscribing a
 #         terminated Subject terminates at once)
+#   future: an already finished concurrent.futures.Future (result "value" if end == "C", an exception if "E"): every
+#         arrival delivers the result and completes, or errors, synchronously (from_future branch of switch_latest);
+#         it has no subscribe/unsubscribe log and the script's push / complete / error steps do not touch it
 # script step: ["outer", j] (outer emits j -> pool[j]) | ["push", m, v] | ["complete", m] | ["error", m] |
 #              ["outer_complete"] | ["outer_error"] | ["dispose"]
+# operators: "switch_map()" / "switch_map_indexed()" are the operators built WITHOUT a projection (default =
+#   identity), fed with the inner observables themselves; for "switch_map_indexed" the projection picks
+#   pool[(element + index) % len(pool)] and the outer element is chosen so that this is the scripted member --
+#   a wrong index argument selects another member; the indices seen are also compared with 0, 1, 2, ...
+# with_scheduler: the subscriber subscribes with scheduler=<sentinel object>; every subscription of a cold / hot
+#   member must receive that very object
 _POOL_VALUES = [0, None, "", False, 1, 2, 3, "a", "b"]
-_POOLED_OPS = ["switch_map", "switch_map_indexed", "flat_map_latest", "map+switch_latest"]
+_POOLED_OPS = ["switch_map", "switch_map_indexed", "switch_map_indexed", "flat_map_latest", "map+switch_latest",
+               "switch_map()", "switch_map_indexed()"]
 
 
 def _pooled_gen(rng):
@@ -158,7 +192,9 @@ def _pooled_gen(rng):
     npool = rng.choice([2, 2, 3])
     pool = []
     for _ in range(npool):
-        if rng.random() < 0.65:
+        if rng.random() < 0.08:
+            pool.append({"kind": "future", "end": rng.choice(["C", "C", "E"]), "value": rng.choice(_POOL_VALUES)})
+        elif rng.random() < 0.65:
             pool.append({"kind": "cold",
                          "prefix": [rng.choice(_POOL_VALUES) for _ in range(rng.choice([0, 1, 1, 2, 3]))],
                          "end": rng.choice(["C", "C", "C", "open", "open", "open", "E"])})
@@ -201,9 +237,15 @@ def _pooled_gen(rng):
     return op, pool, script
 
 
-def _pooled_run_impl(op, pool, script):
+class _SentinelScheduler:
+    """only its identity matters: nothing between the subscriber and the inner sources may call a scheduler"""
+
+
+def _pooled_run_impl(op, pool, script, with_scheduler=False):
     """Drive the real operator; returns (notifications [(step, kind, payload)], log [(step, 'sub'|'unsub', member)],
-    still-subscribed description at the end)."""
+    still-subscribed description at the end, index arguments seen by an indexed projection, schedulers (as
+    'same object as the subscriber passed?') received by the member subscriptions)."""
+    import concurrent.futures
     import reactivex as rx
     from reactivex import operators as ops
     from reactivex.disposable import Disposable
@@ -211,6 +253,9 @@ def _pooled_run_impl(op, pool, script):
     step = [-1]
     log, notes = [], []
     live = [0] * len(pool)
+    sentinel = _SentinelScheduler() if with_scheduler else None
+    sched_ok, idx_seen = [], []
+    npool = len(pool)
 
     def logged(m, inner_dispose):
         log.append((step[0], "sub", m))
@@ -228,6 +273,7 @@ def _pooled_run_impl(op, pool, script):
             self.m = m
 
         def _subscribe_core(self, observer, scheduler=None):
+            sched_ok.append((step[0], self.m, scheduler is sentinel))
             holder = []
             d = logged(self.m, lambda: holder[0].dispose())
             holder.append(super()._subscribe_core(observer, scheduler))
@@ -239,6 +285,7 @@ def _pooled_run_impl(op, pool, script):
             self.observable = rx.Observable(self.subscribe)
 
         def subscribe(self, observer, scheduler=None):
+            sched_ok.append((step[0], self.m, scheduler is sentinel))
             rec = [observer]
             d = logged(self.m, lambda: self.subs.remove(rec) if rec in self.subs else None)
             self.subs.append(rec)
@@ -262,13 +309,30 @@ def _pooled_run_impl(op, pool, script):
             for rec in list(self.subs):
                 rec[0].on_error(e)
 
-    members = [LoggedSubject(m) if s["kind"] == "hot" else Cold(m, s) for m, s in enumerate(pool)]
-    inner = [x if isinstance(x, Subject) else x.observable for x in members]
+    def finished_future(m, s):
+        f = concurrent.futures.Future()
+        if s["end"] == "C":
+            f.set_result(s["value"])
+        else:
+            f.set_exception(Exception(f"member{m}"))
+        return f
+
+    members = [LoggedSubject(m) if s["kind"] == "hot" else finished_future(m, s) if s["kind"] == "future" else Cold(m, s)
+               for m, s in enumerate(pool)]
+    inner = [x.observable if isinstance(x, Cold) else x for x in members]
     outer = Subject()
+    def pick_indexed(x, i):
+        idx_seen.append(i)
+        return inner[(x + i) % npool]
+
     if op == "switch_map":
         o = outer.pipe(ops.switch_map(lambda j: inner[j]))
     elif op == "switch_map_indexed":
-        o = outer.pipe(ops.switch_map_indexed(lambda j, _i: inner[j]))
+        o = outer.pipe(ops.switch_map_indexed(pick_indexed))
+    elif op == "switch_map()":
+        o = outer.pipe(ops.map(lambda j: inner[j]), ops.switch_map())
+    elif op == "switch_map_indexed()":
+        o = outer.pipe(ops.map(lambda j: inner[j]), ops.switch_map_indexed())
     elif op == "flat_map_latest":
         o = outer.pipe(ops.flat_map_latest(lambda j: inner[j]))
     elif op == "map+switch_latest":
@@ -277,12 +341,19 @@ def _pooled_run_impl(op, pool, script):
         raise AssertionError(op)
     sub = o.subscribe(lambda v: notes.append((step[0], "N", v)),
                       lambda e: notes.append((step[0], "E", str(e))),
-                      lambda: notes.append((step[0], "C", None)))
+                      lambda: notes.append((step[0], "C", None)), scheduler=sentinel)
     for k, st in enumerate(script):
         step[0] = k
         try:
-            if st[0] == "outer":
-                outer.on_next(st[1])
+            if st[0] in ("push", "complete", "error") and pool[st[1]]["kind"] == "future":
+                pass
+            elif st[0] == "outer":
+                if op == "switch_map_indexed":
+                    # the element that makes the projection pick member st[1] when handed the right index
+                    # (the projection was called len(idx_seen) times so far: the index this element must get)
+                    outer.on_next((st[1] - len(idx_seen)) % npool)
+                else:
+                    outer.on_next(st[1])
             elif st[0] == "push":
                 members[st[1]].on_next(st[2])
             elif st[0] == "complete":
@@ -302,7 +373,7 @@ def _pooled_run_impl(op, pool, script):
         except Exception as e:                      # the script's calls never raise on a correct tree
             notes.append((k, "RAISED", repr(e)))
     held = [f"member {m} x{c}" for m, c in enumerate(live) if c] + (["outer"] if outer.observers else [])
-    return notes, log, held
+    return notes, log, held, idx_seen, sched_ok
 
 
 def _pooled_reference(pool, script):
@@ -349,6 +420,11 @@ def _pooled_reference(pool, script):
             if spec["kind"] == "cold":
                 for v in spec["prefix"]:
                     notes.append((k, "N", v))
+                ending = spec["end"]
+            elif spec["kind"] == "future":                          # a finished future: its result, then completion
+                facts.add("future_inner")
+                if spec["end"] == "C":
+                    notes.append((k, "N", spec["value"]))
                 ending = spec["end"]
             else:
                 ending = hot_state[m]
@@ -403,21 +479,29 @@ def _pooled_reference(pool, script):
             finished = True
     if any(f in facts for f in ("consecutive_repeat", "nonconsecutive_repeat")):
         facts.add("repeated_inner")
+    log = [x for x in log if pool[x[2]]["kind"] != "future"]        # a Future has no observable subscription
     return notes, log, finished, facts
 
 
-def _pooled_check(op, pool, script):
+def _pooled_check(op, pool, script, with_scheduler=False):
     """None if the implementation agrees with the reference, else (kind, text, got, expected)."""
     e_notes, e_log, e_finished, _ = _pooled_reference(pool, script)
-    status, res = lib.with_timeout(10, _pooled_run_impl, op, pool, script)
+    status, res = lib.with_timeout(10, _pooled_run_impl, op, pool, script, with_scheduler)
     exp = {"notifications (step, kind, payload)": [list(x) for x in e_notes],
            "subscriptions (step, what, member)": [list(x) for x in sorted(e_log)]}
     if status != "ok":
         return ("timeout", "the script did not finish in 10 s", None, exp)
-    notes, log, held = res
+    notes, log, held, idx_seen, sched_ok = res
     got = {"notifications (step, kind, payload)": [list(x) for x in notes],
            "subscriptions (step, what, member)": [list(x) for x in sorted(log)],
            "still subscribed at the end": held}
+    if op == "switch_map_indexed":
+        got["index arguments seen by the projection"] = idx_seen
+        exp["index arguments seen by the projection"] = list(range(len(idx_seen)))
+        # repr: True / 1.0 are not the index 1
+        if repr(idx_seen) != repr(list(range(len(idx_seen)))):
+            return ("index", f"the projection of switch_map_indexed was handed the indices {idx_seen}, expected "
+                    f"{list(range(len(idx_seen)))}", got, exp)
     # repr: 0 / False / 0.0 are different elements.  Instant order among the subscribe / unsubscribe events of ONE
     # script step is left open by the statement, so the logs are compared as per-step multisets (sorted).
     if repr(notes) != repr(e_notes):
@@ -429,10 +513,15 @@ def _pooled_check(op, pool, script):
                 got, exp)
     if e_finished and held:
         return ("leak", f"still subscribed after the subscriber's end: {held}", got, exp)
+    if with_scheduler and not all(ok for (_, _, ok) in sched_ok):
+        wrong = [(k, m) for (k, m, ok) in sched_ok if not ok]
+        got["member subscriptions (step, member) that did not receive the subscriber's scheduler"] = wrong
+        return ("scheduler", f"the subscriber's scheduler object was not handed to the inner subscription(s) "
+                f"(step, member) {wrong}", got, exp)
     return None
 
 
-def _pooled_shrink(op, pool, script, kind):
+def _pooled_shrink(op, pool, script, kind, with_scheduler=False):
     """Greedy: drop script steps / prefix elements while the same kind of mismatch remains."""
     import copy
     pool, script = copy.deepcopy(pool), list(script)
@@ -441,7 +530,7 @@ def _pooled_shrink(op, pool, script, kind):
         again = False
         for i in range(len(script)):
             cand = script[:i] + script[i + 1:]
-            bad = _pooled_check(op, pool, cand)
+            bad = _pooled_check(op, pool, cand, with_scheduler)
             if bad and bad[0] == kind:
                 script, again = cand, True
                 break
@@ -450,7 +539,7 @@ def _pooled_shrink(op, pool, script, kind):
                 for i in range(len(s.get("prefix", []))):
                     cand = copy.deepcopy(pool)
                     del cand[m]["prefix"][i]
-                    bad = _pooled_check(op, cand, script)
+                    bad = _pooled_check(op, cand, script, with_scheduler)
                     if bad and bad[0] == kind:
                         pool, again = cand, True
                         break
@@ -460,35 +549,46 @@ def _pooled_shrink(op, pool, script, kind):
 
 
 def pooled_inner_scenarios(chk):
-    n = 240 if chk.tier == "quick" else 5000
+    n = 600 if chk.tier == "quick" else 8000
     hist, fact_hist = {}, {}
     nontrivial = set()
     shrunk, worst = {}, {}
     for _ in range(n):
         op, pool, script = _pooled_gen(chk.rng)
+        with_scheduler = chk.rng.random() < 0.5
         chk.cov["evaluations"] += 1
         e_notes, _, _, facts = _pooled_reference(pool, script)
-        key = f"{op}/" + "+".join(s["kind"] + (":" + s["end"] if s["kind"] == "cold" else "") for s in pool)
+        key = f"{op}/" + "+".join(s["kind"] + (":" + s["end"] if s["kind"] != "hot" else "") for s in pool)
         hist[key] = hist.get(key, 0) + 1
+        if with_scheduler:
+            facts = facts | {"subscribed_with_a_scheduler"}
+        if op == "switch_map_indexed" and sum(1 for st in script if st[0] == "outer") >= 2:
+            facts = facts | {"indexed_projection_called_twice_or_more"}
+        if op.endswith("()"):
+            facts = facts | {"default_projection"}
         for f in facts:
             fact_hist[f] = fact_hist.get(f, 0) + 1
-        bad = _pooled_check(op, pool, script)
+        bad = _pooled_check(op, pool, script, with_scheduler)
         if bad:
             sig = f"C12|pooled|{op}|{bad[0]}"
             if shrunk.get(sig, 0) < 3:                 # minimise the first few per signature, keep the smallest
                 shrunk[sig] = shrunk.get(sig, 0) + 1
-                pool, script = _pooled_shrink(op, pool, script, bad[0])
-                bad = _pooled_check(op, pool, script)
+                pool, script = _pooled_shrink(op, pool, script, bad[0], with_scheduler)
+                bad = _pooled_check(op, pool, script, with_scheduler)
                 facts = _pooled_reference(pool, script)[3]
             if sig in worst and worst[sig][2] <= len(script):
                 continue
             worst[sig] = (sig,
                           {"family": "pooled_inner_scenarios", "operator": op, "pool": pool, "script": script,
-                           "mismatch": bad[0], "what": bad[1], "got": bad[2], "expected": bad[3],
+                           "with_scheduler": with_scheduler, "mismatch": bad[0], "what": bad[1], "got": bad[2], "expected": bad[3],
                            "facts": sorted(facts),
                            "legend": "pool[j] is the inner the projection returns for outer element j (same object "
                                      "every time); cold: every subscription gets the prefix synchronously, then C / E / "
-                                     "stays open for the script's push|complete|error; hot: a Subject.  Steps are "
+                                     "stays open for the script's push|complete|error; hot: a Subject; future: a "
+                                     "finished concurrent.futures.Future.  Operators ending in () are built without a "
+                                     "projection and fed the inner observables; switch_map_indexed's projection picks "
+                                     "pool[(element + index) % len(pool)].  with_scheduler: subscribe(scheduler=obj), "
+                                     "every member subscription must receive obj.  Steps are "
                                      "numbered from 0; 'expected' is the property text executed directly"},
                           len(script))
         elif len(e_notes) >= 2 and "repeated_inner" in facts:
@@ -515,7 +615,8 @@ def run(chk):
     chk.cov["distinct_nontrivial"] += len(nt)
     chk.cov["input_distribution"]["reentrant_scenarios"] = hist
     chk.cov["rule"] += ("; plus oracle-only scenarios: inner sequences that emit inside subscribe() (BehaviorSubject) "
-                        "whose first element makes the outer emit the next inner re-entrantly")
+                        "whose first element makes the outer emit the next inner re-entrantly (switch_map_indexed: the "
+                        "index arguments are compared with 0, 1, 2, ...)")
     nt, hist, fact_hist = pooled_inner_scenarios(chk)
     chk.cov["distinct_nontrivial"] += len(nt)
     chk.cov["input_distribution"]["pooled_inner_scenarios"] = hist
@@ -527,6 +628,11 @@ def run(chk):
                         "so the same inner object arrives repeatedly, consecutively or not; seeded scripts of outer "
                         "emissions, member push/complete/error, outer completion/error and dispose; notifications "
                         "(with the script step) and the subscribe/unsubscribe log are compared with the property text "
-                        "executed directly; non-trivial = oracle holds, >= 2 notifications, at least one repeated inner")
+                        "executed directly; non-trivial = oracle holds, >= 2 notifications, at least one repeated inner; "
+                        "the same family also builds switch_map() / switch_map_indexed() WITHOUT a projection (fed the "
+                        "inner observables), lets switch_map_indexed's projection choose the member from (element, "
+                        "index) and compares the indices it was handed with 0, 1, 2, ..., includes finished "
+                        "concurrent.futures.Future objects as pool members, and subscribes half of the cases with a "
+                        "sentinel scheduler object that every member subscription must receive")
     a, kw = holder["args"]
     return chk.finish(*a, **kw)
